@@ -159,6 +159,8 @@ def h_classify(ob):
         rid = doc.get('id')
         m = doc['method']
         notif = rid is None
+        # the rig also registers a view whose constructor fails (internal error, C12's subject): not a failure class of C03
+        env.assume(m != 'vfail')
         if m not in ('echo', 'two', 'perr', 'boom'):
             want = -32601
         elif not _binds(m, kp):
